@@ -14,6 +14,7 @@ MenuSingle == {R("get", <<"A">>), R("get", <<"B">>)}
 AKok   == {<<"ok", "", "">>}
 AKvals == {<<"ok", "", "">>, <<"nil", "", "">>, <<"mix", "", "">>}
 AKerr  == {<<"ok", "", "">>, <<"err", "LOADING", "">>}
+AKerrRedir == {<<"ok", "", "">>, <<"err", "LOADING", "">>, <<"moved", "", "n2">>, <<"ask", "", "n1">>}
 AKredir == {<<"ok", "", "">>, <<"moved", "", "n1">>, <<"ask", "", "n2">>, <<"moved", "", "nx">>}
 MR1x2 == (c1 :> 2)
 MR1x3 == (c1 :> 3)
@@ -30,7 +31,8 @@ MenuGen == {R("get", <<"A">>), R("get", <<"B">>), R("set", <<"C">>), R("mget", <
             R("del", <<"A", "C">>), R("mset", <<"B", "C">>), R("ping", <<>>), R("unknown", <<>>)}
 MenuGenQ == MenuGen \cup {R("quit", <<>>)}
 MenuGenU == MenuGen \cup {R("mget", <<"A", "U">>), R("get", <<"U">>)}
-AKgenErr == {<<"ok", "", "">>, <<"nil", "", "">>, <<"err", "LOADING", "">>, <<"err", "WRONGTYPE", "">>}
+AKgenErr == {<<"ok", "", "">>, <<"nil", "", "">>, <<"err", "LOADING", "">>, <<"err", "WRONGTYPE", "">>,
+             <<"moved", "", "n3">>, <<"ask", "", "n1">>, <<"ask", "", "n2">>}
 AKgenRedir == {<<"ok", "", "">>, <<"moved", "", "n1">>, <<"moved", "", "n3">>, <<"ask", "", "n2">>, <<"ask", "", "n3">>, <<"moved", "", "nx">>}
 PrintViol == mon.viol # {} => PrintT(<<"VSCHED", ToJson(sched)>>)
 PrintSched == (halted \/ TLCGet("level") >= 90) => PrintT(<<"SCHED", ToJson(sched)>>)
